@@ -513,12 +513,19 @@ func (w *world) oracleWith(fail func(what, key string), opname string) {
 }
 
 func (w *world) finish(seq []op) {
+	if !c2.VerifC14LockFree(w.s) {
+		failOnce("Session.lock was left held at the end of the sequence (a panicking critical section?)", "seq:lock-left-held",
+			map[string]interface{}{"ops": seq})
+		return
+	}
 	// every waiter of a finished job must have returned; waiters of pending jobs are released by a final Cancel
 	for h, r := range w.jobs {
 		if r.pending {
 			func() {
 				defer func() { recover() }()
-				r.j.Cancel()
+				if c2.VerifC14LockFree(w.s) {
+					r.j.Cancel()
+				}
 			}()
 		}
 		for _, wt := range r.waiters {
@@ -910,6 +917,16 @@ func (sw *sworld) seg(t *cthread, complete bool, fail func(what, key string)) (t
 // release everything that is still parked or blocked (not part of the case)
 func (sw *sworld) cleanup() {
 	sw.cur = nil
+	parkedInside := false
+	for _, t := range sw.all {
+		if t.parked && t.point == 3 {
+			parkedInside = true
+		}
+	}
+	if !parkedInside && !c2.VerifC14LockFree(sw.s) {
+		failOnce("Session.lock was left held at the end of the schedule", "sched:lock-left-held", map[string]interface{}{"threads": len(sw.all)})
+		return
+	}
 	for _, t := range sw.all {
 		if t.parked {
 			t.parked = false
@@ -923,7 +940,9 @@ func (sw *sworld) cleanup() {
 	for _, r := range sw.jobs {
 		func() {
 			defer func() { recover() }()
-			r.j.Cancel()
+			if c2.VerifC14LockFree(sw.s) {
+				r.j.Cancel()
+			}
 		}()
 	}
 	for _, t := range sw.all {
@@ -1278,12 +1297,12 @@ func stressRound(r *vh.Rand, round int) (fail *stressFail) {
 // one finisher (error result with text / empty text / info result / plain result / Cancel).
 
 type outcome struct {
-	st  int
-	err string
-	res *com.Packet
+	st     int
+	errLen int // only the length word of Job.Error is read: the string header may be half written
+	res    *com.Packet
 }
 
-func look(j *c2.Job) outcome { return outcome{int(j.Status), j.Error, j.Result} }
+func look(j *c2.Job) outcome { return outcome{int(j.Status), len(j.Error), j.Result} }
 
 var finisherNames = []string{"error-result", "error-result-empty", "result", "info-result", "cancel"}
 
@@ -1372,7 +1391,7 @@ func readerRound(r *vh.Rand, round int) *stressFail {
 	}
 	final := look(j)
 	d := func(o outcome) string {
-		return fmt.Sprintf("(Status %d, Error %q, Result set %v)", o.st, o.err, o.res != nil)
+		return fmt.Sprintf("(Status %d, len(Error) %d, Result set %v)", o.st, o.errLen, o.res != nil)
 	}
 	if seenPoll != final {
 		return &stressFail{what: fmt.Sprintf("%s: a thread polling IsDone() was told the job is done and saw %s; the job ended as %s (outcome published before it was written)",
